@@ -151,6 +151,17 @@ var targets2 = []target2{
 		params: []param{p("start", "uint32"), p("minimum", "uint32"), p("gap", "int"), p("num", "int")}},
 	{file: "pkg/consensus/sync/fast_sync.go", name: "getLastHeights", lean: "getLastHeights", kind: "appendLoop",
 		params: []param{p("start", "uint32"), p("num", "int")}},
+	// the choice of the synchroniser (Syncer.shouldFastSync / shouldSync)
+	{file: "pkg/consensus/sync/sync.go", recv: "Syncer", name: "shouldFastSync", lean: "shouldFastSyncTwoRounds", kind: "rhs", sel: "twoRounds", tok: ":=",
+		params: []param{ps("validators", "int", "len(ctx.CurrentValidators)")}},
+	{file: "pkg/consensus/sync/sync.go", recv: "Syncer", name: "shouldFastSync", lean: "shouldFastSyncDiff", kind: "rhs", sel: "diff", tok: ":=", want: "int",
+		params: []param{ps("blockHeight", "uint32", "ctx.Block.Header.Height"), ps("lastHeight", "uint32", "lastBlockHeader.Height")}},
+	{file: "pkg/consensus/sync/sync.go", recv: "Syncer", name: "shouldFastSync", lean: "shouldFastSyncTooFar", kind: "cond", sel: "diff > twoRounds",
+		params: []param{p("diff", "int"), p("twoRounds", "int")}},
+	{file: "pkg/consensus/sync/sync.go", recv: "Syncer", name: "shouldSync", lean: "shouldSyncThreeRounds", kind: "rhs", sel: "threeRounds", tok: ":=",
+		params: []param{ps("validators", "int", "len(ctx.CurrentValidators)")}},
+	{file: "pkg/consensus/sync/sync.go", recv: "Syncer", name: "shouldSync", lean: "shouldSyncStale", kind: "ret",
+		params: []param{p("currentSlot", "int"), p("finalizedSlot", "int"), p("threeRounds", "int")}},
 	{file: "pkg/consensus/sync/sync.go", recv: "Syncer", name: "HandleRPCEndpointGetBlocksFromID", lean: "blocksFromIDFrom", kind: "rhs", sel: "from", tok: ":=",
 		params: []param{ps("height", "uint32", "requestedBlock.Height")}},
 	{file: "pkg/consensus/sync/sync.go", recv: "Syncer", name: "HandleRPCEndpointGetBlocksFromID", lean: "blocksFromIDTo", kind: "rhs", sel: "to", tok: ":=",
@@ -661,7 +672,50 @@ func (t *tr2) binary(x *ast.BinaryExpr) tv {
 	return t.fail(x, "binary "+x.Op.String())
 }
 
+// absDiffFloat recognises `math.Abs(float64(a) - float64(b))` for unsigned a, b of at most 32 bits.
+// float64 represents every such value, and the difference of two of them, exactly, so that
+// `int(math.Abs(float64(a) - float64(b)))` is |a-b| as a mathematical integer (below 2^32: it fits `int`).
+func (t *tr2) absDiffFloat(e ast.Expr) (tv, bool) {
+	c, ok := e.(*ast.CallExpr)
+	if !ok || len(c.Args) != 1 || types.ExprString(c.Fun) != "math.Abs" {
+		return tv{}, false
+	}
+	arg := c.Args[0]
+	for {
+		pe, ok := arg.(*ast.ParenExpr)
+		if !ok {
+			break
+		}
+		arg = pe.X
+	}
+	be, ok := arg.(*ast.BinaryExpr)
+	if !ok || be.Op != token.SUB {
+		return tv{}, false
+	}
+	var ops [2]tv
+	for i, o := range []ast.Expr{be.X, be.Y} {
+		fc, ok := o.(*ast.CallExpr)
+		if !ok || len(fc.Args) != 1 || types.ExprString(fc.Fun) != "float64" {
+			return tv{}, false
+		}
+		v := t.expr(fc.Args[0])
+		if t.err != nil || !isUnsigned(v.ty) || bitsOf(v.ty) > 32 {
+			return tv{}, false
+		}
+		ops[i] = v
+	}
+	return tv{s: "(Int.ofNat (Int.natAbs ((Int.ofNat " + ops[0].s + ") - (Int.ofNat " + ops[1].s + "))))", ty: "int"}, true
+}
+
 func (t *tr2) call(x *ast.CallExpr) tv {
+	// int(math.Abs(float64(a) - float64(b))): exact absolute difference
+	if id, ok := x.Fun.(*ast.Ident); ok && id.Name == "int" && len(x.Args) == 1 {
+		if _, shadow := t.env[id.Name]; !shadow {
+			if v, ok := t.absDiffFloat(x.Args[0]); ok {
+				return v
+			}
+		}
+	}
 	// conversion
 	if id, ok := x.Fun.(*ast.Ident); ok && len(x.Args) == 1 {
 		if g := goType(id.Name); g != "" && isInteger(g) {
